@@ -497,7 +497,7 @@ def get_usage_rules(token_type, context, grant, client_id):
 
 class ExchangeGrant(Grant):
     parameter = Grant.parameter.copy()
-    parameter.update({"exchange_request": TokenExchangeRequest, "original_session_id": ""})
+    parameter.update({"exchange_request": TokenExchangeRequest, "original_branch_id": ""})
     type = "exchange_grant"
 
     def __init__(
